@@ -208,6 +208,8 @@ func (n *otrNet) receive(to int, m []byte) {
 
 type otrKnown struct{ id string }
 
+const f38What = "F38 Receive panics (nil pointer in serializeDHKey) on a well-formed D-H commit message that follows a corrupt one: the state is advanced before the first commit is validated"
+
 const f37What = "F37 after an SMP run that failed, its initiator stays in the 'expecting message 4' state: an SMP run with equal secrets started next by the other side is aborted instead of succeeding"
 
 // pump delivers everything in flight, choosing the direction at random.
@@ -536,7 +538,7 @@ func c47History(rt *rapid.T, c *ev.Collector, f33 bool) (classes []string, key s
 			if !ok {
 				n.fail("Send produced something that is not a version 2 data message: %.60q", out[0])
 			}
-			mode := rapid.SampledFrom([]string{"auth-bit", "auth-bit", "auth-byte", "truncate", "unauth", "b64-char", "drop-fragment", "dup-fragment", "swap-fragments"}).Draw(rt, "tmode")
+			mode := rapid.SampledFrom([]string{"auth-bit", "auth-bit", "auth-byte", "truncate", "unauth", "b64-char", "replay", "drop-fragment", "dup-fragment", "swap-fragments"}).Draw(rt, "tmode")
 			var wire [][]byte
 			covered := false
 			enc := func(b []byte) []byte { return refpgp.OTRMsg(b) }
@@ -568,6 +570,9 @@ func c47History(rt *rapid.T, c *ev.Collector, f33 bool) (classes []string, key s
 					m[len(m)-1] ^= 1
 				}
 				wire = [][]byte{enc(m)}
+			case "replay":
+				// the same data message twice: the second copy must be refused (counter)
+				wire = [][]byte{out[0], out[0]}
 			case "b64-char":
 				m := append([]byte{}, out[0]...)
 				pos := rapid.IntRange(5, len(m)-2).Draw(rt, "tpos")
@@ -836,6 +841,32 @@ func TestC47(t *testing.T) {
 		}
 	}
 	_, f33 := ev.IsKnownFinding("F33")
+	// F38 witness: a corrupt D-H commit followed by a well-formed one
+	{
+		conv := &otr.Conversation{PrivateKey: otrKeyPool()[0], Rand: drbg(38)}
+		bad := refpgp.OTRMsg(append(refpgp.OTRHeader(2, 2), 0xff, 0xff))
+		good := refpgp.OTRMsg(append(append(refpgp.OTRHeader(2, 2), refpgp.OTRData(make([]byte, 196))...), refpgp.OTRData(make([]byte, 32))...))
+		pn := guard(func() {
+			conv.Receive(bad)
+			conv.Receive(good)
+		})
+		switch {
+		case pn != nil && knownPanic(pn) == "F38":
+			if _, listed := ev.IsKnownFinding("F38"); listed {
+				c.Known(f38What)
+				c.Excluded()
+			} else {
+				c.Violation(f38What, "")
+				t.Fatalf("VF-VIOLATION: property=C47 %s: %s", f38What, pn)
+			}
+		case pn != nil:
+			c.Violation(pn.String(), "")
+			t.Fatalf("VF-VIOLATION: property=C47 Receive(corrupt D-H commit; D-H commit) %s", pn)
+		default:
+			c.Case(true, "f38-witness", "witness:F38 no longer panics")
+		}
+	}
+	_, f38 := ev.IsKnownFinding("F38")
 
 	rapid.Check(t, func(rt *rapid.T) {
 		if rapid.IntRange(0, 9).Draw(rt, "which") == 0 {
@@ -849,7 +880,11 @@ func TestC47(t *testing.T) {
 			for i := 0; i < k; i++ {
 				in, ic := c47Input(rt, nil)
 				if pn := guard(func() { conv.Receive(in) }); pn != nil {
-					rt.Fatalf("VF-VIOLATION: property=C47 Receive(%q) %s", in, pn)
+					if knownPanic(pn) == "F38" && f38 {
+						c.Excluded()
+						return
+					}
+					rt.Fatalf("VF-VIOLATION: property=C47 Receive(%q) (input %d of this conversation) %s", in, i+1, pn)
 				}
 				cls = append(cls, ic)
 			}
